@@ -39,9 +39,9 @@ func (c07) Gen(tier string, seed int64) []fw.Unit {
 		}
 	}
 	r := rngFor(seed, "C07")
-	n := 32
+	n := 100
 	if tier == "thorough" {
-		n = 320
+		n = 1000
 	}
 	for i := 0; i < n; i++ {
 		us = append(us, fw.U("c3993.random", nil, "random", r.Int63(), 400))
